@@ -143,6 +143,17 @@ CHECKS['C13'] = dict(
          'script" clauses), C01 (a witness acts only through the state it leaves). Counterexamples are realised with real Ed25519 / SHAKE and '
          'replayed on the real package. Graftap / taproot builders are under C05, multisig execution under C03.',
     technique=TECH)
+CHECKS['C14'] = dict(
+    text='Certificate pack / unpack round trip on symbolic key, begin / end in [0, 2^31), may-delegate and signature. The single-certificate lock and '
+         'the recursive chain lock are built by the real builders (symbolic root key) and run from an arbitrary witness state - symbolic '
+         'signature, 105-byte certificates (also 104 / 106 / other lengths), delegation markers - with unbounded symbolic t and now; the verdict '
+         'equals a reference fold over the links (each certificate signed by the previous key under the signature oracle, begin <= t < end with '
+         'slack, non-final links delegable, final delegate signs the flag-selected sigfields), chains of 1..2 (thorough 3). Builder-made '
+         'certificate chains of 1..3 (thorough 5) with symbolic seeds and windows unlock exactly when t is inside every window and within slack.',
+    design_ref='DESIGN.md section 4 C14',
+    note='Trusted: SX engine incl. placeholder strings (witness replay on the builder runs), z3 (window boundaries are linear integer '
+         'arithmetic: decided, not sampled), signature oracle, clock stub. Counterexamples are realised with real keys and signatures.',
+    technique=TECH)
 NOT_APPLICABLE = {}
 NOTES = ('Exit codes of every check: 0 held on everything explored; 1 + VIOLATION line for a counterexample that was '
          'replayed on the real package and is not a listed known finding; 2 harness error / unsupported construct / '
